@@ -1,4 +1,4 @@
-CONSTANTS U <- UQ  DevBoolIsInt = FALSE  DevHashByRep = FALSE  KeySeq <- KeysQ  MaxDepth = 2
+CONSTANTS U <- UQ  DevBoolSeq = FALSE  DevBoolKey = FALSE  DevHashByRep = FALSE  KeySeq <- KeysQ  MaxDepth = 2
 INIT InitL
 NEXT NextL
 INVARIANT LookupRespectsEq
